@@ -14,6 +14,14 @@ pub fn kind_s(k: ErrorKind) -> String {
         ErrorKind::BrokenPipe => "User:3".into(),
         ErrorKind::TimedOut => "User:4".into(),
         ErrorKind::InvalidInput => "User:5".into(),
+        ErrorKind::NotFound => "User:6".into(),
+        ErrorKind::ConnectionRefused => "User:7".into(),
+        ErrorKind::ConnectionAborted => "User:8".into(),
+        ErrorKind::NotConnected => "User:9".into(),
+        ErrorKind::AddrInUse => "User:10".into(),
+        ErrorKind::AddrNotAvailable => "User:11".into(),
+        ErrorKind::AlreadyExists => "User:12".into(),
+        ErrorKind::WouldBlock => "User:13".into(),
         other => format!("Unknown:{:?}", other),
     }
 }
@@ -24,6 +32,17 @@ pub fn user_kind(n: u64) -> ErrorKind {
         2 => ErrorKind::ConnectionReset,
         3 => ErrorKind::BrokenPipe,
         4 => ErrorKind::TimedOut,
+        6 => ErrorKind::NotFound,
+        7 => ErrorKind::ConnectionRefused,
+        8 => ErrorKind::ConnectionAborted,
+        9 => ErrorKind::NotConnected,
+        10 => ErrorKind::AddrInUse,
+        11 => ErrorKind::AddrNotAvailable,
+        12 => ErrorKind::AlreadyExists,
+        13 => ErrorKind::WouldBlock,
+        14 => ErrorKind::Other,
+        15 => ErrorKind::InvalidData,
+        16 => ErrorKind::WriteZero,
         _ => ErrorKind::InvalidInput,
     }
 }
@@ -91,5 +110,11 @@ pub fn msg_s(m: &str) -> String {
 }
 
 pub fn err_s(e: &Error) -> String {
+    // an error built from a kind alone (`kind.into()`) carries no message of its own: whatever text the io
+    // implementation prints for the kind is class "Simple" (std's own "failed to write whole buffer" has no
+    // inner error either, so `get_ref()` cannot be used to tell)
+    if e.to_string() == Error::from(e.kind()).to_string() {
+        return format!("err {} Simple", kind_s(e.kind()));
+    }
     format!("err {} {}", kind_s(e.kind()), msg_s(&e.to_string()))
 }
